@@ -1,7 +1,6 @@
 package rules
 
 import (
-	"go/types"
 	"strings"
 
 	"golang.org/x/tools/go/ssa"
@@ -13,12 +12,14 @@ import (
 // step and handler through DAG.Env (copied into Step.Variables; the command executor
 // builds the child environment as os.Environ() + Variables, later entries winning).
 // A parameter given at start therefore reaches a step that reads its environment only
-// if the parser's entries are added to DAG.Env whole, unfiltered and at the end - so
-// that they override an `env:` entry of the same name, as os.Setenv does for the
-// loading process.
+// if its entry is added to DAG.Env unfiltered and at the end - so that it overrides an
+// `env:` entry of the same name, as os.Setenv does for the loading process.
 //
-// By role: the parameter parser is the function of the dag package returning
-// ([]string, []string, error); its second result is the list of entries.
+// By role: the parameter builder is the function of the dag package that stores
+// DAG.Params. In it (and the helpers only it calls) every store into DAG.Env is
+// `DAG.Env = append(DAG.Env, entries...)` - the builtin, or a helper that does nothing
+// else - reached under no condition other than error tests, and DAG.Env is read nowhere
+// else there (an entry cannot be dropped or placed by looking at what Env already has).
 func c11ParamsOverrideEnv(e *Env) {
 	r := e.R
 	r.Rule("C11.params-override-env", "VF", "the named parameters' NAME=value entries are appended to DAG.Env whole and last", 1)
@@ -27,50 +28,47 @@ func c11ParamsOverrideEnv(e *Env) {
 		r.Unknown("dag package", dagRel, "not loaded")
 		return
 	}
-	isStrSlice := func(t types.Type) bool {
-		s, ok := t.Underlying().(*types.Slice)
-		if !ok {
-			return false
+	dagField := func(addr ssa.Value) string {
+		fa, ok := addr.(*ssa.FieldAddr)
+		if !ok || !strings.HasSuffix(ir.NamedType(fa.X.Type()), "internal/dag.DAG") {
+			return ""
 		}
-		b, ok := s.Elem().Underlying().(*types.Basic)
-		return ok && b.Kind() == types.String
+		return ir.FieldNameOf(fa.X.Type(), fa.Field)
 	}
-	var parsers []*ssa.Function
+	var builders []*ssa.Function
 	for _, f := range e.RepoFuncsSorted() {
-		if f.Package() != sp || f.Parent() != nil || f.Blocks == nil {
+		if rootFn(f).Package() != sp || f.Synthetic != "" {
 			continue
 		}
-		res := f.Signature.Results()
-		if res.Len() == 3 && isStrSlice(res.At(0).Type()) && isStrSlice(res.At(1).Type()) && ir.IsErrorType(res.At(2).Type()) {
-			parsers = append(parsers, f)
+		for _, b := range f.Blocks {
+			for _, in := range b.Instrs {
+				if st, ok := in.(*ssa.Store); ok && dagField(st.Addr) == "Params" {
+					builders = append(builders, f)
+				}
+			}
 		}
 	}
-	if len(parsers) != 1 {
-		r.Unknown("the parameter parser (returns the parameter list and the NAME=value entries)", dagRel, sprintf("%d candidates", len(parsers)))
+	if len(builders) == 0 {
+		r.Unknown("the parameter builder (the function of the dag package that stores DAG.Params)", dagRel, "not found")
 		return
 	}
-	parser := parsers[0]
-	// wholeAppend: v is append(<current value of the field the store goes to>, entries...)
-	var wholeAppend func(v ssa.Value, entries ssa.Value, field string, d int) (bool, string)
-	wholeAppend = func(v ssa.Value, entries ssa.Value, field string, d int) (bool, string) {
-		c, ok := ir.Resolve(v).(*ssa.Call)
-		if !ok {
-			return false, "the stored value is not an append"
+	// appendTo: v is append(<current DAG.Env>, entries...), by the builtin or by a helper that is just that
+	var appendTo func(v ssa.Value, d int) (ok bool, envRead ssa.Value, why string)
+	appendTo = func(v ssa.Value, d int) (bool, ssa.Value, string) {
+		c, isC := ir.Resolve(v).(*ssa.Call)
+		if !isC {
+			return false, nil, "the stored value is not an append"
 		}
 		if bi, isB := c.Call.Value.(*ssa.Builtin); isB && bi.Name() == "append" && len(c.Call.Args) == 2 {
-			if ir.Resolve(c.Call.Args[1]) != entries {
-				return false, "what is appended is not the parser's list itself"
+			if !e.IsFieldRead(c.Call.Args[0], nil, "Env") {
+				return false, nil, "the entries are not appended to the current Env (they are placed in front of it, or the list is rebuilt)"
 			}
-			if field != "" && !e.IsFieldRead(c.Call.Args[0], nil, field) {
-				return false, "the entries are not appended to the current " + field
-			}
-			return true, ""
+			return true, c.Call.Args[0], ""
 		}
-		// a forwarding helper `func(dst, src) { return append(dst, src...) }`
 		g := c.Call.StaticCallee()
 		if g != nil && e.P.Funcs[g] && len(g.Blocks) == 1 && d < 2 {
 			if rt, isR := g.Blocks[0].Instrs[len(g.Blocks[0].Instrs)-1].(*ssa.Return); isR && len(rt.Results) == 1 {
-				if ac, isC := ir.Resolve(rt.Results[0]).(*ssa.Call); isC {
+				if ac, isA := ir.Resolve(rt.Results[0]).(*ssa.Call); isA {
 					if bi, isB := ac.Call.Value.(*ssa.Builtin); isB && bi.Name() == "append" && len(ac.Call.Args) == 2 {
 						pi := func(x ssa.Value) int {
 							for k, p := range g.Params {
@@ -80,85 +78,84 @@ func c11ParamsOverrideEnv(e *Env) {
 							}
 							return -1
 						}
-						d0, s0 := pi(ac.Call.Args[0]), pi(ac.Call.Args[1])
-						if d0 >= 0 && s0 >= 0 && ir.Resolve(c.Call.Args[s0]) == entries && (field == "" || e.IsFieldRead(c.Call.Args[d0], nil, field)) {
-							return true, ""
+						if d0, s0 := pi(ac.Call.Args[0]), pi(ac.Call.Args[1]); d0 >= 0 && s0 >= 0 && e.IsFieldRead(c.Call.Args[d0], nil, "Env") {
+							return true, c.Call.Args[d0], ""
 						}
 					}
 				}
 			}
 		}
-		return false, "the entries go through " + ir.CalleeName(&c.Call) + ", which may drop or reorder them"
+		return false, nil, "the entries go through " + ir.CalleeName(&c.Call) + ", which may drop or reorder them"
 	}
-	n := 0
-	for _, ci := range e.callSitesAll(parser) {
-		cv, ok := ci.(ssa.Value)
-		if !ok {
-			continue
-		}
-		var entries ssa.Value
-		for _, ref := range *cv.Referrers() {
-			if ex, isE := ref.(*ssa.Extract); isE && ex.Index == 1 {
-				entries = ex
-			}
-		}
-		if entries == nil {
-			continue // the entries are not used at this site
-		}
-		n++
-		host := ShortFn(rootFn(ci.Parent()))
-		// every use of the entries: an append into the DAG's Env field
-		stored := false
-		for _, ref := range *entries.Referrers() {
-			rc, isCall := ref.(*ssa.Call)
-			if !isCall {
-				if _, isDbg := ref.(*ssa.DebugRef); isDbg {
-					continue
-				}
-				r.Bad(host+": the parser's NAME=value entries are only appended to DAG.Env", e.InstrPos(ref.(ssa.Instruction)), "the entries are used in another way: "+ref.String())
-				continue
-			}
-			// where does the result of this call go?
-			for _, r2 := range *rc.Referrers() {
-				st, isSt := r2.(*ssa.Store)
-				if !isSt {
-					continue
-				}
-				fa, isFA := st.Addr.(*ssa.FieldAddr)
-				if !isFA {
-					continue
-				}
-				field := ir.FieldNameOf(fa.X.Type(), fa.Field)
-				if !strings.HasSuffix(ir.NamedType(fa.X.Type()), "dag.DAG") {
-					continue
-				}
-				stored = true
-				ok, why := wholeAppend(rc, entries, field, 0)
-				// unconditional apart from the parser's error
-				var other []ir.NLit
-				for _, l := range e.DCS(st) {
-					if l.Kind == "cmp" && (ir.IsNilConst(l.Y) || ir.IsNilConst(l.X)) {
+	for _, f := range builders {
+		host := ShortFn(f)
+		parts := sortedFns(e.inlinedSet(f, nil))
+		nStore := 0
+		used := map[ssa.Value]bool{}
+		for _, g := range parts {
+			for _, b := range g.Blocks {
+				for _, in := range b.Instrs {
+					st, ok := in.(*ssa.Store)
+					if !ok || dagField(st.Addr) != "Env" {
 						continue
 					}
-					other = append(other, l)
+					nStore++
+					okA, envRead, why := appendTo(st.Val, 0)
+					if envRead != nil {
+						used[ir.Resolve(envRead)] = true
+					}
+					var other []ir.NLit
+					for _, l := range e.DCS(st) {
+						if l.Kind == "cmp" && (ir.IsNilConst(l.Y) || ir.IsNilConst(l.X)) {
+							continue
+						}
+						// the exit test of a loop that ran before (`index < len(list)`)
+						if l.Kind == "cmp" {
+							if _, isLen := lenArg(l.X); isLen {
+								continue
+							}
+							if _, isLen := lenArg(l.Y); isLen {
+								continue
+							}
+						}
+						other = append(other, l)
+					}
+					var facts []string
+					if why != "" {
+						facts = append(facts, why)
+					}
+					if len(other) > 0 {
+						okA = false
+						facts = append(facts, e.FactsStr("stored only under: ", other))
+					}
+					r.Check(okA, host+": DAG.Env = append(DAG.Env, <the named parameters' entries>...)", e.InstrPos(st),
+						"the named parameters' entries are not added to the DAG's environment list whole and last: an entry that is dropped or placed before an `env:` entry of the same name leaves Step.Variables with the `env:` default, which overrides the parameter in every child process", facts...)
 				}
-				var facts []string
-				if why != "" {
-					facts = append(facts, why)
-				}
-				if len(other) > 0 {
-					ok = false
-					facts = append(facts, e.FactsStr("stored only under: ", other))
-				}
-				r.Check(ok, host+": DAG."+field+" = append(DAG."+field+", <the parser's NAME=value entries>...)", e.InstrPos(st),
-					"the named parameters' entries are not added to the DAG's environment list whole and last: an entry that is dropped or placed before an `env:` entry of the same name leaves Step.Variables with the `env:` default, which overrides the parameter in every child process", facts...)
 			}
 		}
-		if !stored {
-			r.Bad(host+": the parser's NAME=value entries are stored into the DAG's environment list", e.InstrPos(ci), "no store of an append of the entries into a field of the DAG")
+		if nStore == 0 {
+			r.Bad(host+": the named parameters' entries are stored into DAG.Env", e.Pos(f.Pos()), "the function that stores DAG.Params stores nothing into DAG.Env")
+			continue
 		}
-	}
-	if n == 0 {
-		r.Unknown("call of the parameter parser whose NAME=value entries are used", e.Pos(parser.Pos()), "none found")
+		// no other look at DAG.Env while the entries are collected
+		okRead := true
+		var facts []string
+		for _, g := range parts {
+			for _, b := range g.Blocks {
+				for _, in := range b.Instrs {
+					u, ok := in.(*ssa.UnOp)
+					if !ok || dagField(u.X) != "Env" || used[ssa.Value(u)] {
+						continue
+					}
+					if len(*u.Referrers()) == 0 {
+						continue
+					}
+					okRead = false
+					facts = append(facts, "DAG.Env read at "+e.InstrPos(u))
+				}
+			}
+		}
+		r.Check(okRead, host+": DAG.Env is read only to be extended", e.Pos(f.Pos()),
+			"the parameter builder looks at what DAG.Env already holds while collecting the parameters' entries: an entry can be dropped because its name is defined there", facts...)
 	}
 }
